@@ -223,6 +223,9 @@ func (g *G) genC01(p *Plan) {
 				src := ops[g.rng.Intn(len(ops))]
 				if src.K == "put" {
 					op = Op{K: "copy", B: c.Buckets[0], Key: k, SrcB: src.B, SrcKey: src.Key}
+					if g.chance(0.6) {
+						op.Meta = g.meta() // replacement metadata sent with the copy request
+					}
 				}
 			}
 		}
@@ -360,6 +363,8 @@ func (g *G) genC02(p *Plan) {
 			op = Op{K: "copy", B: bkt(), Key: key(), SrcB: bkt(), SrcKey: key()}
 			if g.chance(0.25) {
 				op.SrcB, op.SrcKey = op.B, op.Key // self-copy
+			} else if g.chance(0.4) {
+				op.Meta = g.meta()
 			}
 		case r < 82:
 			op = Op{K: "mkbucket", B: bkt()}
